@@ -31,6 +31,13 @@ TEXTS = ["Hello ", "100% ", "50%% off ", "%(x)s ", "%s ", "a{b}c ", "{x ", "} ",
          "<b>bold</b> ", "R&D ", "\"q\" 's ", "%", " % d ", "(paren) ", "", " ", "x", "%)s ", "trailing  "]
 VALUES = ["v", "<i>", "a&b", "\"", "'", "100%", "%s", "", "x y", "&lt;"]
 NAMES = ["a", "b", "user", "count", "num", "n2"]
+# names of the gettext functions' own parameters and of the keywords the wrappers fill in themselves
+PARAM_NAMES = ["context", "message", "singular", "plural", "string", "n", "__string", "__context", "__num", "__singular", "__plural",
+               "__string_ctx", "_trans", "_trans_n", "self", "caller"]
+
+
+def _idf(v):
+    return v
 
 
 class _S(str):
@@ -54,7 +61,8 @@ AXES = ("plain", "plain", "async", "sandbox", "overlay", "unoptimized", "transla
 
 def gen_block(rng):
     ndecl = rng.randint(0, 3)
-    names = rng.sample(NAMES, ndecl)
+    pool = NAMES + (rng.sample(PARAM_NAMES, 3) if rng.random() < 0.35 else [])
+    names = rng.sample(pool, ndecl)
     plural = rng.random() < 0.45
     count_name = None
     explicit = False
@@ -107,6 +115,9 @@ def gen_block(rng):
     for n, s in decl:
         if s not in data:
             data[s] = rng.choice(VALUES)
+    # some declared variables are EXPRESSIONS (a call: the extension evaluates it once into a scratch name)
+    exprs = {n for n, s in decl if rng.random() < 0.3}
+    data["idf"] = _idf
     for n in used:
         if n not in [d[0] for d in decl]:
             data[n] = rng.choice(VALUES)
@@ -116,7 +127,7 @@ def gen_block(rng):
         if isinstance(data[k], str) and k not in markup_vals and rng.random() < 0.15:
             data[k] = _S(data[k]) if rng.random() < 0.5 else _O(data[k])
     return {"decl": decl, "sing": sing, "plur": plur, "ctx": ctx, "trim": trim, "data": data,
-            "markup": sorted(markup_vals), "count": count_name, "explicit": explicit}
+            "markup": sorted(markup_vals), "count": count_name, "explicit": explicit, "exprs": sorted(exprs)}
 
 
 def print_block(b, delims=None):
@@ -135,7 +146,7 @@ def _print_block(b):
     if b["trim"] is not None:
         head += " trimmed" if b["trim"] else " notrimmed"
     if b["decl"]:
-        head += " " + ", ".join(f"{n}={s}" for n, s in b["decl"])
+        head += " " + ", ".join(f"{n}=idf({s})" if n in b.get("exprs", ()) else f"{n}={s}" for n, s in b["decl"])
     head += " %}"
 
     def pr(ps):
@@ -408,9 +419,9 @@ def run(ctx):
         has_var = bool(block_vars(b))
         text = "".join(p[1] for p in b["sing"] + (b["plur"] or []) if p[0] == "t")
         nt = (has_var and ("%" in text or "\n" in text)) or b["plur"] is not None
-        case = {"kind": "trans", "source": src, "data": {k: (v if isinstance(v, (int, float, bool)) else str(v)) for k, v in b["data"].items()},
+        case = {"kind": "trans", "source": src, "data": {k: (v if isinstance(v, (int, float, bool)) else str(v)) for k, v in b["data"].items() if k != "idf"},
                 "markup": b["markup"], "style": st, "autoescape": ae, "policy_trimmed": pol, "axis": axis, "newline_sequence": nl,
-                "block": dict(b, data={k: (v if isinstance(v, (int, float, bool)) else str(v)) for k, v in b["data"].items()})}
+                "block": dict(b, data={k: (v if isinstance(v, (int, float, bool)) else str(v)) for k, v in b["data"].items() if k != "idf"})}
         ctx.case(sample={"source": src, "data": b["data"], "style": st, "autoescape": ae, "render": out, "gettext_call": rec}
                  if nt and len(ctx.samples) < 5 else None,
                  key=("trans", src, repr(b["data"]), st, ae, pol) if nt else None)
@@ -637,6 +648,7 @@ def replay(ctx, data):
         b["sing"] = [tuple(p) for p in b["sing"]]
         b["plur"] = [tuple(p) for p in b["plur"]] if b["plur"] is not None else None
         b["decl"] = [tuple(p) for p in b["decl"]]
+        b["data"]["idf"] = _idf
         out, rec, err = real_run(jinja2, case["source"], b["data"], b["markup"], case["style"], case["autoescape"], case["policy_trimmed"],
                                  case.get("axis", "plain"), nl=case.get("newline_sequence", "\n"))
         spec = spec_text(b, case["autoescape"], case["policy_trimmed"])
